@@ -5,5 +5,3 @@ CONSTANTS
   TailPatterns <- TailQuick
   LeadModes <- LeadAll
   TrailModes <- TrailAll
-INVARIANTS Accept Reject AllClausesSeen
-CHECK_DEADLOCK FALSE
